@@ -147,7 +147,7 @@ Finish(c, res, cls, nrs, nves) ==
   /\ ves' = nves
   /\ last' = [op |-> "call", call |-> c, res |-> res, cls |-> cls, history |-> rs.calls,
               nsteps |-> Len(nrs.prog), decl |-> nrs.decl, locked |-> nrs.locked, dead |-> nrs.dead,
-              cur |-> nrs.cur, stageNames |-> {nrs.stages[i].name : i \in DOMAIN nrs.stages}]
+              cur |-> nrs.cur, curStart |-> nrs.curStart, stageNames |-> {nrs.stages[i].name : i \in DOMAIN nrs.stages}]
 
 Refuse(c, res, cls) == Finish(c, res, cls, rs, ves)
 
